@@ -36,6 +36,8 @@ def main(argv) -> int:
         return runner.check(prop, tier)
     if cmd == "replay":
         return runner.replay(argv[2])
+    if cmd == "worlddigest":
+        return runner.worlddigest(argv[2])
     if cmd == "digests":
         return runner.digests(argv[2], argv[3], [int(x) for x in argv[4:]])
     if cmd == "runone":
